@@ -39,9 +39,13 @@ def inv1(rep, mod, table, rule='INV-1', only=None, floor=4):
         cls = table.node(cname)
         if cls is None:
             continue
+        from ..inline import known_names
+        known = known_names(getattr(mod, 'relpath', 'adapter.py'))
         for name, f in methods_of(cls).items():
             if only is not None and name not in only:
                 continue
+            if name.startswith('_') and not name.startswith('__') and name not in known:
+                continue      # a new private helper: its body is seen inlined in its callers
             writes, D = shared.content_writes(f, S1)
             real = []
             for w, kind, cont, val in writes:
